@@ -11,12 +11,13 @@ LEVEL = "other"
 EXPLANATION = (
     "Static analysis of comms/discovery.py, both discovery decoders and factory.discover: R1 folded constants (0.5 s, 3 requests), the request "
     "loop's condition is `not responses and count < MAX` with an unconditional increment (ranking function => at most MAX sends, terminates), "
-    "each iteration sends then sleeps the interval, the transport is closed and list(responses) returned on every path; the number of "
-    "iterations is derived by finite evaluation of the loop counter; R2 request bytes and ports equal the vendor strings, both decoders split "
-    "with maxsplit = parts-1 (commas in the AT5 name survive), compare the id at index 2 and take host/serial/id(/name) from the vendor "
-    "positions; R3 duplicates collapse: responses are collected in a set and both response classes are frozen dataclasses; R4 foreign datagrams: "
-    "match() false returns before decode, DecodeError is caught, only instances of the response type are forwarded; R5 factory.discover maps each "
-    "response class to the client of its generation with port 9004/9005 and the response's host/id/serial(/name). Arrival timing is not decided."
+    "each iteration sends then sleeps the interval, the transport is closed and the collected responses returned on every path, no return inside "
+    "the loop, the listener is installed after every request; the number of iterations is derived by finite evaluation of the loop counter; R2 "
+    "request bytes and ports equal the vendor strings, both decoders split with maxsplit = parts-1 (commas in the AT5 name survive), compare the "
+    "id at index 2 and take host/serial/id(/name) from the vendor positions; R3 duplicates collapse: responses are collected in a set and both "
+    "response classes are frozen dataclasses; R4 foreign datagrams: match() false returns before decode, DecodeError is caught, only instances of"
+    " the response type are forwarded; R5 factory.discover maps each response class to the client of its generation with port 9004/9005 and the "
+    "response's host/id/serial(/name). Arrival timing is not decided."
 )
 ASSUMPTIONS = ["vendor discovery formats: AT4 'IP,MAC,AirTouch4,ID' on UDP 49004 (reverse engineered), AT5 'IP,ConsoleID,AirTouch5,AirTouchID,Name' on UDP 49005 (protocol v1.2 p.13)"]
 FLOORS = {"C18.R1": 8, "C18.R2": 14, "C18.R3": 3, "C18.R4": 4, "C18.R5": 6}
